@@ -198,6 +198,17 @@ func filesetMain(mode string, a args) {
 						raw[k] = 10
 					}
 				}
+				// multi-byte runes and invalid UTF-8: columns count bytes
+				if l > 0 && r.Intn(2) == 0 {
+					for _, u := range [][]int{{0xc3, 0xa9}, {0xe4, 0xb8, 0x96}, {0xf0, 0x9f, 0x8d, 0x95}, {0xff}, {0xc3}} {
+						for c := r.Intn(3); c > 0; c-- {
+							at := r.Intn(l)
+							for q := 0; q < len(u) && at+q < l; q++ {
+								raw[at+q] = u[q]
+							}
+						}
+					}
+				}
 				name := fmt.Sprintf("f%d", i+1)
 				if r.Intn(6) == 0 {
 					name = ""
